@@ -29,4 +29,19 @@ func collect() {
 	regexSource("s/multiswarm", "addrRe", "multi_addr_re")
 	methodCallsWithPrefix("s/udpswarm", "Addr", "String", "net", "udp_string_net_calls")
 	methodCallsWithPrefix("s/udpswarm", "Addr", "UnmarshalText", "net", "udp_unmarshal_net_calls")
+
+	// C02 / C03 / C06: P2PKE constants and the readiness guards as truth tables
+	constInt("p/p2pke", "MaxNonce", "ke_max_nonce")
+	constInt("p/p2pke", "noncePostHandshake", "ke_nonce_post_handshake")
+	constInt("p/p2pke", "nonceInitHello", "ke_nonce_init_hello")
+	constInt("p/p2pke", "nonceRespHello", "ke_nonce_resp_hello")
+	constInt("p/p2pke", "nonceInitDone", "ke_nonce_init_done")
+	constInt("p/p2pke", "nonceRespDone", "ke_nonce_resp_done")
+	constInt("p/p2pke", "Overhead", "ke_overhead")
+	constInt("p/p2pke", "MaxMessageLen", "ke_max_message_len")
+	constString("p/p2pke", "purposeChannelBinding", "ke_purpose_cb")
+	constString("p/p2pke", "purposeTimestamp", "ke_purpose_ts")
+	guardTable("p/p2pke", "Session", "canSend", "ke_can_send_table")
+	guardTable("p/p2pke", "Session", "canReceive", "ke_can_receive_table")
+	guardTable("p/p2pke", "Session", "IsReady", "ke_is_ready_table")
 }
